@@ -3,7 +3,7 @@
 
    Filter sets are multisets of at most MaxTotal items (at most MaxPerKind of one kind); an item is one of NB base
    filters (overlapping criteria from Filter.tla's universe: id, type alone and combined with an id, payload, lifecycle;
-   enabled or not, negated or not) as positive, negative or event filter, or one of 3 marker filters.
+   enabled or not, negated or not) as positive, negative or event filter, one of 3 marker filters, or one of 2 positive apid+ctid filters (dlt-convert list form).
    The message table holds 15 messages; for every field (ecu, apid, ctid, message type, verbose bit, text, lifecycle, and
    ecu without extended header) there is a message that differs from message 1 (resp. 8) in exactly that field, so that a decision which wrongly depends on the history of the
    stream (e.g. one re-used from the previous message) differs from Keep. The streams are a few short ones (incl. the
@@ -37,7 +37,9 @@ Pool(k) == << E(k),                                                        \* 1 
               [E(k) EXCEPT !.apid = Re("contains", <<B>>, <<>>), !.lcs = LcList(<<2, 1>>)]   \* 15 apid contains B in lifecycles 1, 2
            >>
 NB == Len(Pool(0))
-ItemTab == Pool(KPos) \o Pool(KNeg) \o Pool(KEvent) \o <<Pool(KMarker)[1], Pool(KMarker)[3], Pool(KMarker)[6]>>
+\* two positive filters of the form a dlt-convert list can hold (apid and ctid literal): sets of them are loaded from such a list
+ConvPool == << [E(KPos) EXCEPT !.apid = Lit(<<A, B>>), !.ctid = Lit(<<B, A>>)], [E(KPos) EXCEPT !.apid = Lit(<<A, A>>), !.ctid = Lit(<<B, A>>)] >>
+ItemTab == Pool(KPos) \o Pool(KNeg) \o Pool(KEvent) \o <<Pool(KMarker)[1], Pool(KMarker)[3], Pool(KMarker)[6]>> \o ConvPool
 NI == Len(ItemTab)
 Item(j) == ItemTab[j]
 KindOf(j) == ItemTab[j].kind
